@@ -4,6 +4,7 @@ import (
 	"crypto/sha512"
 	"encoding/base64"
 	"fmt"
+	"os"
 	"reflect"
 
 	"github.com/brutella/hc/util"
@@ -88,18 +89,31 @@ func (cfg *Config) XHMURI(flag util.SetupFlag) (string, error) {
 }
 
 // loads load the id, version and config hash
-func (cfg *Config) load(storage util.Storage) {
-	if b, err := storage.Get("uuid"); err == nil && len(b) > 0 {
-		cfg.id = string(b)
+//
+// A value which is not stored keeps its default. An error is returned when a value could not be read for any
+// other reason: the defaults (a new id, version 1) would be saved over the values of the previous runs.
+func (cfg *Config) load(storage util.Storage) error {
+	for _, key := range []string{"uuid", "version", "configHash"} {
+		b, err := storage.Get(key)
+		if err != nil && !os.IsNotExist(err) {
+			return err
+		}
+
+		if err != nil || len(b) == 0 {
+			continue
+		}
+
+		switch key {
+		case "uuid":
+			cfg.id = string(b)
+		case "version":
+			cfg.version = to.Int64(string(b))
+		case "configHash":
+			cfg.configHash = b
+		}
 	}
 
-	if b, err := storage.Get("version"); err == nil && len(b) > 0 {
-		cfg.version = to.Int64(string(b))
-	}
-
-	if b, err := storage.Get("configHash"); err == nil && len(b) > 0 {
-		cfg.configHash = b
-	}
+	return nil
 }
 
 // save stores the id, version and config
